@@ -46,6 +46,7 @@ type c12Sample struct {
 	Ft   string `json:"ft"`
 	Rt   string `json:"rt"`
 	Name string `json:"name"`
+	Exp  string `json:"exp,omitempty"` // experiment; generated sheets use "e_<name>"
 }
 
 type c12Marker struct {
@@ -118,6 +119,25 @@ func c12TagField(s c12Sample) string {
 
 func c12Experiment(name string) string { return "e_" + name }
 
+func c12SampleExperiment(s c12Sample) string {
+	if s.Exp != "" {
+		return s.Exp
+	}
+	return c12Experiment(s.Name)
+}
+
+// the experiment the sheet declares for a sample name
+func c12DeclaredExperiment(sh *c12Sheet, mk int, name string) string {
+	if mk >= 1 && mk <= len(sh.Markers) {
+		for _, s := range sh.Markers[mk-1].Samples {
+			if s.Name == name && s.Exp != "" {
+				return s.Exp
+			}
+		}
+	}
+	return c12Experiment(name)
+}
+
 // old text format: experiment sample tags forward reverse F @ [key=value;]  (no parameters)
 func c12SheetOld(sh *c12Sheet) string {
 	var b strings.Builder
@@ -128,7 +148,7 @@ func c12SheetOld(sh *c12Sheet) string {
 			if i%2 == 1 {
 				sep = "   "
 			}
-			fields := []string{c12Experiment(s.Name), s.Name, c12TagField(s), strings.ToUpper(m.Fwd), strings.ToUpper(m.Rev), "F", "@"}
+			fields := []string{c12SampleExperiment(s), s.Name, c12TagField(s), strings.ToUpper(m.Fwd), strings.ToUpper(m.Rev), "F", "@"}
 			b.WriteString(strings.Join(fields, sep))
 			if i == 0 {
 				b.WriteString(" position=" + strconv.Itoa(i+1) + ";")
@@ -194,7 +214,7 @@ func c12SheetCSV(sh *c12Sheet) string {
 	b.WriteString("experiment,sample,sample_tag,forward_primer,reverse_primer\n")
 	for _, m := range sh.Markers {
 		for _, s := range m.Samples {
-			fmt.Fprintf(&b, "%s,%s,%s,%s,%s\n", c12Experiment(s.Name), s.Name, c12TagField(s), strings.ToUpper(m.Fwd), strings.ToUpper(m.Rev))
+			fmt.Fprintf(&b, "%s,%s,%s,%s,%s\n", c12SampleExperiment(s), s.Name, c12TagField(s), strings.ToUpper(m.Fwd), strings.ToUpper(m.Rev))
 		}
 	}
 	return b.String()
@@ -328,8 +348,8 @@ func c12FromAnnotations(sh *c12Sheet, seq string, a map[string]any) (o c12Out, n
 	if e != "" {
 		o.Err = 1
 	}
-	if o.Smp != "" && c12Str(a, "experiment") != c12Experiment(o.Smp) {
-		bad = fmt.Sprintf("sample %s comes with experiment %q, declared %q", o.Smp, c12Str(a, "experiment"), c12Experiment(o.Smp))
+	if want := c12DeclaredExperiment(sh, o.Mk, o.Smp); o.Smp != "" && c12Str(a, "experiment") != want {
+		bad = fmt.Sprintf("sample %s comes with experiment %q, declared %q", o.Smp, c12Str(a, "experiment"), want)
 	}
 	return
 }
@@ -851,6 +871,21 @@ func c12Replay(env *Env) {
 				judge("lib-"+format, sh, l, "direct", &od)
 				or := c12Extract(lib, sh, fmt.Sprintf("r%dc", ci), l.Rc)
 				judge("lib-"+format, sh, l, "rc", &or)
+				// strand symmetry, on the two observations alone: the same records in reverse order, direction flipped
+				if od.Fault == "" && or.Fault == "" && l.Amb == 0 && l.Ambrc == 0 {
+					fl := make([]c12Out, len(od.Outs))
+					for i, o := range od.Outs {
+						o.Dir = map[string]string{"forward": "reverse", "reverse": "forward"}[o.Dir]
+						fl[len(od.Outs)-1-i] = o
+					}
+					if f, d := c12Diff(fl, or.Outs); f != "" {
+						env.fail("C12.replay.symmetry", fmt.Sprintf("lib-%s/%s/%s", format, l.Cls, sh.Mode),
+							fmt.Sprintf("sheet %d read %s and its reverse complement do not give mirrored records: %s (direct: %d record(s), rc: %d)", sh.ID, l.Read, d, len(od.Outs), len(or.Outs)),
+							map[string]any{"sheet": sh.ID, "level": "lib-" + format, "strand": "both", "read": l.Read, "cls": l.Cls, "line": l, "sheetline": sh.Line})
+					} else {
+						env.ok("symmetry/" + l.Cls)
+					}
+				}
 				if format == "csv" && od.Fault == "" && or.Fault == "" && (l.Amb == 1 || l.Ambrc == 1 || (ci+int(env.seed))%evrate == 0) {
 					logEvent(c12Event{K: "demux", Src: "R", Cls: l.Cls, Fmt: format, Sheet: c12EvSheetOf(sh), Sc: c12NoScenario(),
 						Read: c12Codes(l.Read), Readrc: c12Codes(l.Rc), Out: c12EvOuts(od.Outs), None: c12B(od.None), Outrc: c12EvOuts(or.Outs), Nonerc: c12B(or.None), Fault: ""})
@@ -980,7 +1015,7 @@ func c12HamStr(a, b string) int {
 // c12RandSheet: 1-3 markers, 1-5 samples each, tags of 6-8 bases (some pairs only 2 apart, so that one
 // substitution can tie), absent / asymmetric tags, spacers 0-3, budgets 0-3, one IUPAC code in some primers
 func c12RandSheet(r *rand.Rand, id int, delim bool) *c12Sheet {
-	sh := &c12Sheet{ID: id, Mode: []string{"strict", "hamming", "indel"}[r.Intn(3)], Indel: r.Intn(4) == 0}
+	sh := &c12Sheet{ID: id, Mode: []string{"strict", "hamming", "indel"}[r.Intn(3)], Indel: id%8 == 3}
 	var not byte
 	if delim {
 		sh.Delim = string(c12Nuc[r.Intn(4)])
@@ -989,6 +1024,9 @@ func c12RandSheet(r *rand.Rand, id int, delim bool) *c12Sheet {
 		sh.Indel = false
 	}
 	nm := 1 + r.Intn(3)
+	if sh.Indel { // the reference matcher with indels is costly for TLC: fewer markers, shorter reads
+		nm = 1 + r.Intn(2)
+	}
 	for mi := 0; mi < nm; mi++ {
 		m := c12Marker{Ef: r.Intn(4), Er: r.Intn(4), Sf: r.Intn(4), Sr: r.Intn(4)}
 		if delim {
@@ -1157,6 +1195,9 @@ func c12RandScenario(r *rand.Rand, sh *c12Sheet) c12Built {
 		if r.Intn(5) == 0 {
 			return ""
 		}
+		if sh.Indel {
+			return c12RandSeq(r, 1+r.Intn(8))
+		}
 		return c12RandSeq(r, 1+r.Intn(25))
 	}
 	lf, rf, mid := flank(), flank(), ""
@@ -1170,10 +1211,16 @@ func c12RandScenario(r *rand.Rand, sh *c12Sheet) c12Built {
 		// primers
 		nf, nr := 0, 0
 		if r.Intn(2) == 0 {
-			nf = r.Intn(m.Ef + 2)
+			nf = r.Intn(m.Ef + 1)
 		}
 		if r.Intn(2) == 0 {
-			nr = r.Intn(m.Er + 2)
+			nr = r.Intn(m.Er + 1)
+		}
+		switch r.Intn(24) { // one error more than allowed
+		case 0:
+			nf = m.Ef + 1
+		case 1:
+			nr = m.Er + 1
 		}
 		fi, ri := 0, 0
 		if sh.Indel && r.Intn(3) == 0 {
@@ -1231,18 +1278,26 @@ func c12RandScenario(r *rand.Rand, sh *c12Sheet) c12Built {
 		}
 		pre, post := "", ""
 		if sh.Delim != "" {
-			sfill, rfill = strings.Repeat(sh.Delim, m.Sf), strings.Repeat(sh.Delim, m.Sr)
-			pre, post = strings.Repeat(sh.Delim, 1+r.Intn(2)), strings.Repeat(sh.Delim, 1+r.Intn(2))
+			// the reverse primer's oligonucleotide is delim.tag.delim.primer too: the read shows its reverse complement
+			sfill, rfill = strings.Repeat(sh.Delim, m.Sf), strings.Repeat(rc(sh.Delim), m.Sr)
+			// the delimiter run on the far side of each tag: as long as the spacer, sometimes not
+			pre, post = strings.Repeat(sh.Delim, m.Sf), strings.Repeat(sh.Delim, m.Sr)
+			if r.Intn(4) == 0 {
+				pre, post = strings.Repeat(sh.Delim, 1+r.Intn(3)), strings.Repeat(sh.Delim, 1+r.Intn(3))
+			}
 			a.Clean = 0
 		}
 		bc := c12RandSeq(r, 5+r.Intn(75))
+		if sh.Indel {
+			bc = c12RandSeq(r, 5+r.Intn(25))
+		}
 		if r.Intn(40) == 0 {
 			bc = ""
 			cls = append(cls, "dimer")
 		}
 		// the tag pieces carry the delimiter run that precedes / follows them on delimiter sheets
-		a.Tf, a.Sfill, a.Pf, a.Bc, a.Pr, a.Rfill, a.Tr = c12Codes(pre+tf), c12Codes(sfill), c12Codes(pf), c12Codes(bc), c12Codes(pr), c12Codes(rfill), c12Codes(tr+rc(post))
-		fwd := pre + tf + sfill + pf + bc + rc(pr) + rfill + rc(tr+rc(post))
+		a.Tf, a.Sfill, a.Pf, a.Bc, a.Pr, a.Rfill, a.Tr = c12Codes(pre+tf), c12Codes(sfill), c12Codes(pf), c12Codes(bc), c12Codes(pr), c12Codes(rfill), c12Codes(post+tr)
+		fwd := pre + tf + sfill + pf + bc + rc(pr) + rfill + rc(post+tr)
 		if a.Ori == 1 {
 			fwd = rc(fwd)
 			cls = append(cls, "reverse")
@@ -1262,9 +1317,10 @@ func c12RandScenario(r *rand.Rand, sh *c12Sheet) c12Built {
 	sc.Lf, sc.Mid, sc.Rf = c12Codes(lf), c12Codes(mid), c12Codes(rf)
 	if namp == 0 {
 		cls = append(cls, "nosite")
-		if text == "" {
-			text = c12RandSeq(r, 30)
-			sc.Lf = c12Codes(text)
+		if text == "" || r.Intn(3) == 0 { // very short reads too, the empty one included
+			text = c12RandSeq(r, r.Intn(12))
+			sc.Lf, sc.Rf = c12Codes(text), []int{}
+			cls = append(cls, "tiny")
 		}
 	}
 	if namp == 2 {
